@@ -1,7 +1,15 @@
-//! C16 — (stub, under construction)
+//! C16 — TrueType outlines are decoded with correct contour and composite semantics.
 
 use super::Prop;
 use crate::rt::*;
+use crate::sfnt::glyf::{self as ig, Args, Component, Composite, EncChoice, Glyph, Scale, Seg, SubPath};
+use allsorts::binary::read::ReadScope;
+use allsorts::outline::{OutlineBuilder, OutlineSink};
+use allsorts::pathfinder_geometry::line_segment::LineSegment2F;
+use allsorts::pathfinder_geometry::vector::Vector2F;
+use allsorts::tables::glyf::GlyfTable;
+use allsorts::tables::loca::LocaTable;
+use allsorts::tables::IndexToLocFormat;
 
 pub struct C16 {}
 
@@ -11,8 +19,382 @@ impl C16 {
     }
 }
 
+#[derive(Clone, Debug, PartialEq)]
+pub enum Cmd {
+    Move(f64, f64),
+    Line(f64, f64),
+    Quad(f64, f64, f64, f64),
+    Cubic(f64, f64, f64, f64, f64, f64),
+    Close,
+}
+
+#[derive(Default)]
+pub struct RecSink {
+    pub cmds: Vec<Cmd>,
+}
+impl OutlineSink for RecSink {
+    fn move_to(&mut self, to: Vector2F) {
+        self.cmds.push(Cmd::Move(to.x() as f64, to.y() as f64));
+    }
+    fn line_to(&mut self, to: Vector2F) {
+        self.cmds.push(Cmd::Line(to.x() as f64, to.y() as f64));
+    }
+    fn quadratic_curve_to(&mut self, c: Vector2F, to: Vector2F) {
+        self.cmds.push(Cmd::Quad(c.x() as f64, c.y() as f64, to.x() as f64, to.y() as f64));
+    }
+    fn cubic_curve_to(&mut self, c: LineSegment2F, to: Vector2F) {
+        self.cmds.push(Cmd::Cubic(c.from_x() as f64, c.from_y() as f64, c.to_x() as f64, c.to_y() as f64, to.x() as f64, to.y() as f64));
+    }
+    fn close(&mut self) {
+        self.cmds.push(Cmd::Close);
+    }
+}
+
+/// Split recorded commands into closed sub-paths. Err(reason) when the command stream is not a
+/// sequence of `move_to ... close` groups.
+pub fn subpaths(cmds: &[Cmd]) -> Result<Vec<SubPath>, String> {
+    let mut out = Vec::new();
+    let mut cur: Option<SubPath> = None;
+    for (i, c) in cmds.iter().enumerate() {
+        match c {
+            Cmd::Move(x, y) => {
+                if cur.is_some() {
+                    return Err(format!("move_to at command {} inside an open sub-path", i));
+                }
+                cur = Some(SubPath { start: (*x, *y), segs: Vec::new() });
+            }
+            Cmd::Close => match cur.take() {
+                Some(p) => out.push(p),
+                None => return Err(format!("close at command {} without move_to", i)),
+            },
+            other => {
+                let p = match cur.as_mut() {
+                    Some(p) => p,
+                    None => return Err(format!("drawing command {} outside a sub-path", i)),
+                };
+                p.segs.push(match *other {
+                    Cmd::Line(x, y) => Seg::Line { to: (x, y) },
+                    Cmd::Quad(cx, cy, x, y) => Seg::Quad { ctrl: (cx, cy), to: (x, y) },
+                    Cmd::Cubic(a, b, c, d, x, y) => Seg::Cubic { c1: (a, b), c2: (c, d), to: (x, y) },
+                    _ => unreachable!(),
+                });
+            }
+        }
+    }
+    if cur.is_some() {
+        return Err("last sub-path not closed".to_string());
+    }
+    Ok(out)
+}
+
+pub fn cmds_json(cmds: &[Cmd]) -> J {
+    J::A(cmds.iter().take(60).map(|c| J::s(format!("{:?}", c))).collect())
+}
+
+/// Expected sub-paths of glyph `gid` per the TrueType semantics; None = outside the judged core
+/// (point-matching args, scaled component offsets, both offset flags).
+fn expected(glyphs: &[Glyph], gid: usize, depth: usize, ambiguous: &mut Option<&'static str>, bound: &mut f64) -> Option<Vec<SubPath>> {
+    if depth > 12 {
+        return None;
+    }
+    match &glyphs[gid] {
+        Glyph::Empty => Some(Vec::new()),
+        Glyph::Simple(s) => {
+            let v: Vec<SubPath> = s.contours.iter().filter_map(|c| ig::contour_path(c)).collect();
+            for p in &v {
+                *bound = bound.max(ig::max_abs(p));
+            }
+            Some(v)
+        }
+        Glyph::Composite(c) => {
+            let mut out = Vec::new();
+            for comp in &c.components {
+                let child = expected(glyphs, comp.gid as usize, depth + 1, ambiguous, bound)?;
+                let (dx, dy) = match comp.args {
+                    Args::XY(x, y) => (x as f64, y as f64),
+                    Args::Points(..) => {
+                        *ambiguous = Some("point-matching-args");
+                        return None;
+                    }
+                };
+                let m = ig::scale_matrix(comp.scale);
+                let scaled = comp.extra_flags & 0x800 != 0;
+                let unscaled = comp.extra_flags & 0x1000 != 0;
+                if scaled && comp.scale != Scale::None {
+                    // engines disagree on how a scaled offset is computed: not judged
+                    *ambiguous = Some(if unscaled { "both-offset-flags" } else { "scaled-component-offset" });
+                    return None;
+                }
+                // magnitude of the intermediate products (for the f32 cancellation allowance)
+                let mnorm = m.0.abs() + m.1.abs() + m.2.abs() + m.3.abs();
+                for p in child {
+                    *bound = bound.max(ig::max_abs(&p) * mnorm.max(1.0) + dx.abs() + dy.abs());
+                    let t = ig::transform_path(&p, m, (dx, dy));
+                    *bound = bound.max(ig::max_abs(&t));
+                    out.push(t);
+                }
+            }
+            Some(out)
+        }
+    }
+}
+
+fn nesting(glyphs: &[Glyph], gid: usize, seen: &mut Vec<usize>) -> usize {
+    match &glyphs[gid] {
+        Glyph::Composite(c) => {
+            if seen.contains(&gid) {
+                return 99;
+            }
+            seen.push(gid);
+            let d = c.components.iter().map(|k| nesting(glyphs, k.gid as usize, seen)).max().unwrap_or(0);
+            seen.pop();
+            1 + d
+        }
+        _ => 0,
+    }
+}
+
+fn gen_scale(rng: &mut Rng) -> Scale {
+    let v = |rng: &mut Rng| -> i16 {
+        match rng.below(6) {
+            0 => 16384,
+            1 => -16384,
+            2 => 8192,
+            3 => 0,
+            4 => *rng.pick(&[i16::MAX, i16::MIN, 1, -1]),
+            _ => rng.range(-32768, 32767) as i16,
+        }
+    };
+    match rng.below(5) {
+        0 | 1 => Scale::None,
+        2 => Scale::Uniform(v(rng)),
+        3 => Scale::XY(v(rng), v(rng)),
+        _ => Scale::Matrix(v(rng), v(rng), v(rng), v(rng)),
+    }
+}
+
 impl Prop for C16 {
-    fn case(&mut self, cx: &mut Ctx, _rng: &mut Rng) {
-        cx.inconclusive("not-implemented");
+    fn case(&mut self, cx: &mut Ctx, rng: &mut Rng) {
+        // glyph set: simple glyphs first, then composites that refer to lower or (rarely) any ids
+        let nsimple = 1 + rng.below(6);
+        let ncomp = rng.below(8);
+        let range = *rng.pick(&[300i32, 2000, 16000, 32767]);
+        let mut glyphs: Vec<Glyph> = Vec::new();
+        for _ in 0..nsimple {
+            if rng.chance(1, 10) {
+                glyphs.push(Glyph::Empty);
+            } else {
+                glyphs.push(Glyph::Simple(ig::gen_simple(rng, if cx.quick() { 4 } else { 8 }, 40, range)));
+            }
+        }
+        let cyclic = rng.chance(1, 25);
+        let wide = rng.chance(1, 6);
+        for k in 0..ncomp {
+            let n = 1 + rng.below(4);
+            let total = nsimple + ncomp;
+            let mut components = Vec::new();
+            for _ in 0..n {
+                let gid = if cyclic && rng.chance(1, 3) { rng.below(total) } else { rng.below(nsimple + k) };
+                let args = if wide && rng.chance(1, 4) {
+                    Args::Points(rng.below(10) as u16, rng.below(10) as u16)
+                } else {
+                    match rng.below(3) {
+                        0 => Args::XY(rng.range(-128, 127) as i16, rng.range(-128, 127) as i16),
+                        1 => Args::XY(rng.range(-2000, 2000) as i16, rng.range(-2000, 2000) as i16),
+                        _ => Args::XY(rng.range(-32768, 32767) as i16, rng.range(-32768, 32767) as i16),
+                    }
+                };
+                let mut extra = 0u16;
+                if rng.chance(1, 4) {
+                    extra |= 0x1000;
+                }
+                if wide && rng.chance(1, 3) {
+                    extra |= 0x800;
+                }
+                if rng.chance(1, 5) {
+                    extra |= 0x200;
+                }
+                if rng.chance(1, 5) {
+                    extra |= 0x4;
+                }
+                if rng.chance(1, 8) {
+                    extra |= 0x400;
+                }
+                components.push(Component { gid: gid as u16, args, scale: gen_scale(rng), extra_flags: extra, force_words: rng.chance(1, 4) });
+            }
+            let ilen = if rng.chance(1, 5) { 1 + rng.below(10) } else { 0 };
+            glyphs.push(Glyph::Composite(Composite { components, instructions: rng.bytes(ilen) }));
+        }
+        // serialise
+        let enc = EncChoice::random(rng);
+        let mut records = Vec::new();
+        for g in &glyphs {
+            records.push(match g {
+                Glyph::Empty => Vec::new(),
+                Glyph::Simple(s) => ig::write_simple(s, s.bbox(), rng, &enc),
+                Glyph::Composite(c) => ig::write_composite(c, ig::BBox { x_min: 0, y_min: 0, x_max: 0, y_max: 0 }),
+            });
+        }
+        // generator self-check: the independent reader must read back what was written
+        for (g, r) in glyphs.iter().zip(records.iter()) {
+            let back = ig::read_glyph(r).map(|x| x.0);
+            let same = match (g, &back) {
+                (Glyph::Composite(a), Some(Glyph::Composite(b))) => a.components.len() == b.components.len() && a.instructions == b.instructions,
+                (a, Some(b)) => a == b || matches!((a, b), (Glyph::Simple(s), Glyph::Simple(_)) if s.contours.is_empty()),
+                _ => false,
+            };
+            if !same {
+                cx.inconclusive("generator:glyph-roundtrip");
+                return;
+            }
+        }
+        let force_long = rng.chance(1, 4);
+        let (glyf, loca, long) = ig::build_glyf_loca(&records, force_long, rng.bool());
+        let fmt = if long { IndexToLocFormat::Long } else { IndexToLocFormat::Short };
+        let loca_t = match ReadScope::new(&loca).read_dep::<LocaTable<'_>>((glyphs.len(), fmt)) {
+            Ok(l) => l,
+            Err(e) => {
+                cx.violation("table-rejected", "loca-rejected", J::s(format!("{:?}", e)));
+                return;
+            }
+        };
+        let mut table = match ReadScope::new(&glyf).read_dep::<GlyfTable<'_>>(&loca_t) {
+            Ok(t) => t,
+            Err(e) => {
+                cx.violation("table-rejected", "glyf-rejected", J::obj(vec![("error", J::s(format!("{:?}", e))), ("glyf", J::hex(&glyf[..glyf.len().min(2000)]))]));
+                return;
+            }
+        };
+        let mut any_nontrivial = false;
+        for gid in 0..glyphs.len() {
+            let mut seen = Vec::new();
+            let depth = nesting(&glyphs, gid, &mut seen);
+            let mut ambiguous = None;
+            let mut bound = 1.0f64;
+            let exp = if depth >= 99 { None } else { expected(&glyphs, gid, 0, &mut ambiguous, &mut bound) };
+            let mut sink = RecSink::default();
+            let res = table.visit(gid as u16, &mut sink);
+            let witness = |what: String, sink: &RecSink| {
+                J::obj(vec![
+                    ("what", J::s(what)),
+                    ("glyph_id", J::U(gid as u64)),
+                    ("glyph", J::s(format!("{:?}", glyphs[gid]))),
+                    ("glyphs", J::s(format!("{:?}", glyphs).chars().take(3000).collect::<String>())),
+                    ("observed", cmds_json(&sink.cmds)),
+                    ("glyf", J::hex(&glyf[..glyf.len().min(1500)])),
+                    ("loca", J::hex(&loca[..loca.len().min(200)])),
+                    ("loca_long", J::Bool(long)),
+                ])
+            };
+            if depth >= 99 {
+                // cyclic reference: must be refused, not loop
+                cx.class("composite:cyclic");
+                if res.is_ok() {
+                    cx.violation("cyclic-composite", "cyclic-composite-accepted", witness("cyclic composite returned Ok".into(), &sink));
+                }
+                continue;
+            }
+            let exp = match exp {
+                Some(e) => e,
+                None => {
+                    cx.class(&format!("not-judged:{}", ambiguous.unwrap_or("depth")));
+                    continue;
+                }
+            };
+            if let Err(e) = res {
+                if depth > 4 {
+                    cx.class("composite:depth-limit-error");
+                    continue;
+                }
+                cx.violation("visit-error", if depth > 0 { "composite-visit-error" } else { "simple-visit-error" }, witness(format!("visit failed: {:?} (nesting {})", e, depth), &sink));
+                continue;
+            }
+            let got = match subpaths(&sink.cmds) {
+                Ok(g) => g,
+                Err(why) => {
+                    cx.violation("path-structure", "not-closed-subpaths", witness(why, &sink));
+                    continue;
+                }
+            };
+            if got.len() != exp.len() {
+                cx.violation("contour-count", if depth > 0 { "composite-contour-count" } else { "simple-contour-count" }, witness(format!("{} sub-paths, expected {}", got.len(), exp.len()), &sink));
+                continue;
+            }
+            // absolute tolerance: f32 has 24 bits; allow 2^-17 of the largest magnitude involved
+            let tol = if depth > 0 { 1e-3 + bound * 8e-6 * depth as f64 } else { 1e-3 };
+            let mut bad = None;
+            for (i, (g, e)) in got.iter().zip(exp.iter()).enumerate() {
+                if !ig::same_cycle(g, e, tol) {
+                    bad = Some((i, e.clone()));
+                    break;
+                }
+            }
+            if let Some((i, e)) = bad {
+                // features smaller than the f32 allowance cannot be decided either way
+                let feature = exp.iter().map(ig::min_feature).fold(f64::INFINITY, f64::min);
+                if depth > 0 && feature < 16.0 * tol {
+                    cx.class("not-judged:degenerate-geometry");
+                    continue;
+                }
+                let sig = if depth == 0 {
+                    "simple-contour".to_string()
+                } else if depth == 1 {
+                    match &glyphs[gid] {
+                        Glyph::Composite(c) if c.components.iter().any(|k| matches!(k.scale, Scale::Matrix(..))) => "composite-2x2".to_string(),
+                        Glyph::Composite(c) if c.components.iter().any(|k| k.scale != Scale::None) => "composite-scale".to_string(),
+                        _ => "composite-offset".to_string(),
+                    }
+                } else {
+                    "nested-composite".to_string()
+                };
+                cx.violation("contour-geometry", &sig, witness(format!("sub-path {} differs (tol {:.5}, min feature {:.5}); expected (up to rotation) {:?} observed {:?}", i, tol, feature, e, got[i]), &sink));
+                continue;
+            }
+            // classes
+            match &glyphs[gid] {
+                Glyph::Simple(s) => {
+                    for c in &s.contours {
+                        let first_on = c.first().map_or(true, |p| p.on);
+                        let last_on = c.last().map_or(true, |p| p.on);
+                        cx.class(match (first_on, last_on) {
+                            (true, true) => "contour:first-on,last-on",
+                            (true, false) => "contour:first-on,last-off",
+                            (false, true) => "contour:first-off,last-on",
+                            (false, false) => "contour:first-off,last-off",
+                        });
+                        if c.len() == 1 {
+                            cx.class("contour:single-point");
+                        }
+                        if c.iter().all(|p| !p.on) {
+                            cx.class("contour:all-off");
+                        }
+                    }
+                    if !s.contours.is_empty() {
+                        any_nontrivial = true;
+                    }
+                }
+                Glyph::Composite(c) => {
+                    cx.class(&format!("composite:depth-{}", depth.min(7)));
+                    for k in &c.components {
+                        cx.class(match k.scale {
+                            Scale::None => "transform:none",
+                            Scale::Uniform(_) => "transform:uniform",
+                            Scale::XY(..) => "transform:xy",
+                            Scale::Matrix(..) => "transform:2x2",
+                        });
+                    }
+                    if !exp.is_empty() {
+                        any_nontrivial = true;
+                    }
+                }
+                Glyph::Empty => cx.class("glyph:empty"),
+            }
+        }
+        if any_nontrivial {
+            cx.nontrivial(hash_bytes(&glyf));
+        }
+        if cx.want_sample() {
+            cx.sample(J::obj(vec![("glyphs", J::s(format!("{:?}", glyphs).chars().take(600).collect::<String>())), ("glyf_len", J::U(glyf.len() as u64)), ("loca_long", J::Bool(long))]));
+        }
     }
 }
